@@ -226,6 +226,21 @@ def L(p):
     t['A.combinations'] = lambda W: W[A].combinations(2)
     t['A.combinations_with_replacement'] = lambda W: W[A].combinations_with_replacement(2)
     t['A.__eq__'] = lambda W: (W[A] == W[B], W[A] == W[A].copy())
+    # ---- the same functions on the peptide given as a string (results must be fresh objects every time)
+    S1 = '[Acetyl]-PEK[Oxidation]T[1.5]K/2'
+    t['permutations-str'] = lambda W: p.permutations(S1, 2)
+    t['combinations-str'] = lambda W: p.combinations(S1, 2)
+    t['combinations_with_replacement-str'] = lambda W: p.combinations_with_replacement(S1, 2)
+    t['product-str'] = lambda W: p.product(S1, 2)
+    t['split-str'] = lambda W: p.split(S1)
+    t['get_mods-str'] = lambda W: p.get_mods(S1)
+    t['count_residues-str'] = lambda W: p.count_residues(S1)
+    t['fragment-str'] = lambda W: p.fragment(S1, ['b', 'y'], [1])
+    t['digest-str'] = lambda W: list(p.digest(S1, 'trypsin/P', 1, return_type='annotation-span'))
+    t['comp-str'] = lambda W: p.comp(S1, estimate_delta=True)
+    t['coverage-str'] = lambda W: p.coverage(S1, ['PEK[Oxidation]', 'T[1.5]K'])
+    t['find_subsequence_indices-str'] = lambda W: p.find_subsequence_indices(S1, 'K')
+    t['isotopic_distribution-str'] = lambda W: p.isotopic_distribution(W['formula'], 3)
     t['C.__eq__'] = lambda W: (W['C'] == W['C2'], W['C2'] != W['C'])
     t['find_subsequence_indices-C'] = lambda W: p.find_subsequence_indices(W['C'], W['C2'])
     t['is_subsequence-C'] = lambda W: (p.is_subsequence(W['C2'], W['C']), p.is_subsequence(W['C2'], W['C'], order=False))
